@@ -1,7 +1,506 @@
-//! Checks over the generated derive schemas (C07-C10). Filled in once the generator exists.
+//! Checks over the generated derive schemas: C07 (derived part), C08, C09, C10, C13 (derived part).
+//!
+//! Every schema of `refmodel::schema::enumerate_schemas` was compiled into a real derived
+//! type by the gen_derive shard crates; the same schema value is interpreted here by the
+//! reference encoder / decoder, so generated code and oracle cannot drift.
 
+use derive_rt::{DecRes, Entry, ErrClass};
 use mcx::Report;
+use refmodel::enumerate::deviations_up_to_ex;
+use refmodel::schema::*;
+use refmodel::*;
+use serde_json::json;
+use std::collections::BTreeMap;
 
-pub fn c07(_r: &Report) {}
+pub struct Ctx {
+    pub all: Vec<Schema>,
+    pub pairs: Vec<Pair>,
+    pub entries: Vec<Entry>,
+}
+
+pub fn ctx() -> Ctx {
+    let (all, pairs) = enumerate_with_pairs(gen_derive::THOROUGH);
+    let entries = gen_derive::entries();
+    assert_eq!(all.len(), entries.len(), "generated entry table and interpreted schema list differ");
+    for (s, e) in all.iter().zip(&entries) {
+        assert_eq!(s.id, e.id);
+    }
+    Ctx { all, pairs, entries }
+}
+
+/// A compact Rust-like rendering of a schema for messages.
+pub fn describe(s: &Schema, all: &[Schema]) -> String {
+    fn fields(fs: &[FieldS], all: &[Schema]) -> String {
+        fs.iter()
+            .map(|f| {
+                if f.skip {
+                    return "#[cbor(skip)] u8".to_string();
+                }
+                let ty = match &f.ty {
+                    FTy::Nested(j) => format!("T{}", j),
+                    FTy::OptNested(j) => format!("Option<T{}>", j),
+                    t => format!("{:?}", t),
+                };
+                let _ = all;
+                format!("#[{}({})]{} {}", if f.borrow { "b" } else { "n" }, f.idx, f.tag.map(|t| format!(" #[tag({})]", t)).unwrap_or_default(), ty)
+            })
+            .collect::<Vec<_>>()
+            .join(", ")
+    }
+    let enc = |e: &Option<Enc>| match e {
+        None => "",
+        Some(Enc::Array) => "#[cbor(array)] ",
+        Some(Enc::Map) => "#[cbor(map)] ",
+    };
+    match &s.kind {
+        Kind::Struct(st) => format!("T{}: {}{}{}struct {:?} {{ {} }}", s.id, enc(&st.enc), st.tag.map(|t| format!("#[tag({})] ", t)).unwrap_or_default(), if st.transparent { "#[transparent] " } else { "" }, st.shape, fields(&st.fields, all)),
+        Kind::Enum(e) => format!(
+            "T{}: {}{}{}enum {{ {} }}",
+            s.id,
+            enc(&e.enc),
+            e.tag.map(|t| format!("#[tag({})] ", t)).unwrap_or_default(),
+            if e.index_only { "#[index_only] " } else { "" },
+            e.variants.iter().map(|v| format!("#[n({})] {}{}{:?}({})", v.idx, enc(&v.enc), v.tag.map(|t| format!("#[tag({})] ", t)).unwrap_or_default(), v.shape, fields(&v.fields, all))).collect::<Vec<_>>().join(" | ")
+        ),
+    }
+}
+
+fn gv(v: &GenVal) -> String {
+    let s = format!("{:?}", v);
+    s.chars().take(200).collect()
+}
+
+fn checked_schemas(c: &Ctx) -> Vec<&Schema> {
+    c.all.iter().filter(|s| !s.helper).collect()
+}
+
+fn family_counts(r: &Report, sub: &str, c: &Ctx) {
+    let mut m: BTreeMap<&str, u64> = BTreeMap::new();
+    for s in checked_schemas(c) {
+        *m.entry(s.family).or_default() += 1;
+    }
+    for (k, v) in m {
+        r.outcome(sub, &format!("schemas in {}", k), v);
+    }
+}
+
+// ---------------------------------------------------------------------------------------------
+
+pub fn c07(r: &Report) {
+    let c = ctx();
+    let sub = "derived-types";
+    r.space(sub, true, &format!("{} compiled type definitions of the schema grammar (index sets/gaps/order, array/map at type, enum and variant level, tags at every level, every field type incl. custom nil-aware codecs, transparent, skip, index_only, nesting, 23/24/25 fields) x all presence combinations of optional fields x boundary field values", checked_schemas(&c).len()), 2);
+    family_counts(r, sub, &c);
+    let ss = checked_schemas(&c);
+    mcx::par::run_shards(
+        ss.len(),
+        |i| {
+            let s = ss[i];
+            let e = &c.entries[s.id];
+            let vals = values(s, &c.all);
+            let mut ok = 0u64;
+            for v in &vals {
+                mcx::slot::case("derived-len", format!("T{}", s.id).as_bytes());
+                let res = mcx::par::guard(|| ((e.to_vec)(v), (e.len)(v)));
+                let (bytes, len) = match res {
+                    Ok((Ok(b), l)) => (b, l),
+                    Ok((Err(_), _)) => continue,
+                    Err(p) => {
+                        r.fail(sub, None, json!({"schema": describe(s, &c.all), "value": gv(v)}), format!("panicked: {}", p));
+                        continue;
+                    }
+                };
+                if len != bytes.len() {
+                    r.fail(sub, None, json!({"schema": describe(s, &c.all), "value": gv(v), "encoded_hex": hex(&bytes)}), format!("len() = {} but the encoder writes {} bytes", len, bytes.len()));
+                    continue;
+                }
+                // exact fit / one short
+                let mut buf = vec![0u8; len];
+                let fit = (e.encode_slice)(v, &mut buf);
+                if fit != Ok(len) || buf != bytes {
+                    r.fail(sub, None, json!({"schema": describe(s, &c.all), "value": gv(v)}), format!("encoding into exactly len() = {} bytes gave {:?}", len, fit));
+                    continue;
+                }
+                if len > 0 {
+                    let mut short = vec![0u8; len - 1];
+                    let res = (e.encode_slice)(v, &mut short);
+                    if res != Err(true) {
+                        r.fail(sub, None, json!({"schema": describe(s, &c.all), "value": gv(v)}), format!("encoding into len()-1 bytes gave {:?} instead of a write error", res));
+                        continue;
+                    }
+                }
+                ok += 1;
+            }
+            r.add(sub, vals.len() as u64, ok);
+            r.add_states(sub, vals.len() as u64, 3 * vals.len() as u64);
+            if i % 199 == 0 {
+                r.sample(sub, json!({"schema": describe(s, &c.all), "values": vals.len()}));
+            }
+        },
+        crate::hang_handler(r.property.clone()),
+    );
+}
+
+pub fn c08(r: &Report) {
+    let c = ctx();
+    let sub = "wire-format";
+    r.space(sub, true, &format!("{} compiled type definitions x all presence combinations x boundary values: bytes must equal the preferred serialisation of the documented format computed by the schema interpreter (names, declaration order and n/b never enter the interpreter)", checked_schemas(&c).len()), 2);
+    family_counts(r, sub, &c);
+    r.assume("where the documentation is silent the reference follows the evidently intended behaviour: a tagged optional field that is None but lies below the highest present index of an array is written as tag(null)");
+    let ss = checked_schemas(&c);
+    mcx::par::run_shards(
+        ss.len(),
+        |i| {
+            let s = ss[i];
+            let e = &c.entries[s.id];
+            let vals = values(s, &c.all);
+            let mut ok = 0u64;
+            for v in &vals {
+                mcx::slot::case("derived-encode", format!("T{}", s.id).as_bytes());
+                let bytes = match mcx::par::guard(|| (e.to_vec)(v)) {
+                    Ok(Ok(b)) => b,
+                    other => {
+                        r.fail(sub, None, json!({"schema": describe(s, &c.all), "value": gv(v)}), format!("encoding failed: {:?}", other.map(|x| x.map(|_| ()))));
+                        continue;
+                    }
+                };
+                let want_item = schema_encode(s, &c.all, v);
+                let want = want_item.to_bytes();
+                if bytes != want {
+                    let got = match parse(&bytes) {
+                        Ok((i, u)) if u == bytes.len() => i.diag(),
+                        o => format!("{:?}", o.map(|x| x.0.diag())),
+                    };
+                    r.fail(sub, None, json!({"schema": describe(s, &c.all), "value": gv(v)}), format!("wrote {} = {}, the documented format is {} = {}", hex(&bytes), got, hex(&want), want_item.diag()));
+                    continue;
+                }
+                ok += 1;
+            }
+            r.add(sub, vals.len() as u64, ok);
+            if i % 173 == 0 {
+                if let Some(v) = vals.last() {
+                    r.sample(sub, json!({"schema": describe(s, &c.all), "value": gv(v), "encoded_hex": (e.to_vec)(v).map(|b| hex(&b)).unwrap_or_default()}));
+                }
+            }
+        },
+        crate::hang_handler(r.property.clone()),
+    );
+}
+
+/// Does the actual decoding result agree with the reference verdict?
+fn agree(expected: &SVerdict, actual: &DecRes, len: usize) -> Result<(), String> {
+    match (expected, actual) {
+        (SVerdict::May, _) => Ok(()),
+        (SVerdict::Ok(g), DecRes::Ok(a, pos, borrowed)) => {
+            if a != g {
+                return Err(format!("decoded {:?}, the documented result is {:?}", a, g));
+            }
+            if *pos != len {
+                return Err(format!("decoded the right value but consumed {} of {} bytes", pos, len));
+            }
+            if !borrowed {
+                return Err("a borrowing field (&str, &[u8] or #[b] Cow) does not point into the input".into());
+            }
+            Ok(())
+        }
+        (SVerdict::Ok(g), DecRes::Err(c, pos)) => Err(format!("failed with {:?} at position {}, the documented result is {:?}", c, pos, g)),
+        (SVerdict::Err(k), DecRes::Ok(a, _, _)) => Err(format!("returned {:?} although the input must be rejected ({:?})", a, k)),
+        (SVerdict::Err(_), DecRes::Err(_, _)) => Ok(()),
+    }
+}
+
+/// Single-point negative mutations of an encoding: each tag bumped / removed, each array
+/// truncated by its last element, each map entry removed, each small unsigned bumped to an unused value.
+fn negatives(i: &Item) -> Vec<Item> {
+    let mut out = Vec::new();
+    match i {
+        Item::Tag(t, w, inner) => {
+            out.push(Item::tag(t + 1, (**inner).clone()));
+            out.push((**inner).clone());
+            for n in negatives(inner) {
+                out.push(Item::Tag(*t, *w, Box::new(n)));
+            }
+        }
+        Item::Array(v, _) => {
+            if !v.is_empty() {
+                out.push(Item::array(v[..v.len() - 1].to_vec()));
+                out.push(Item::array(v[1..].to_vec()));
+            }
+            for k in 0..v.len() {
+                for n in negatives(&v[k]) {
+                    let mut v2 = v.clone();
+                    v2[k] = n;
+                    out.push(Item::array(v2));
+                }
+                if let Item::Uint(n, _) = &v[k] {
+                    if k == 0 && v.len() == 2 {
+                        // plausibly an enum index: replace by an unused one
+                        let mut v2 = v.clone();
+                        v2[0] = Item::uint(n + 77);
+                        out.push(Item::array(v2));
+                    }
+                }
+            }
+        }
+        Item::Map(v, _) => {
+            for k in 0..v.len() {
+                let mut v2 = v.clone();
+                v2.remove(k);
+                out.push(Item::map(v2));
+                for n in negatives(&v[k].1) {
+                    let mut v2 = v.clone();
+                    v2[k].1 = n;
+                    out.push(Item::map(v2));
+                }
+                // unknown key instead of the known one
+                if let Item::Uint(n, _) = &v[k].0 {
+                    let mut v2 = v.clone();
+                    v2[k].0 = Item::uint(n + 1000);
+                    out.push(Item::map(v2));
+                }
+            }
+        }
+        Item::Uint(n, _) => out.push(Item::uint(n + 77)),
+        _ => {}
+    }
+    out
+}
+
+pub fn c09(r: &Report) {
+    let c = ctx();
+    let sub = "round-trip";
+    r.space(
+        sub,
+        true,
+        &format!("{} compiled type definitions x values; every encoding decoded as produced, with a trailing byte, and in every re-framing with <= 2 deviations (each array/map indefinite, each head at each wider width; 1 deviation above 12 bytes)", checked_schemas(&c).len()),
+        2,
+    );
+    let neg = "negative-cases";
+    r.space(neg, true, "single-point damage to every encoding: each tag bumped and removed, each array shortened at either end, each map entry removed or re-keyed, enum index replaced by an unused one; the reference decoder decides whether the result must be an error or a (different) value", 2);
+    family_counts(r, sub, &c);
+    let ss = checked_schemas(&c);
+    mcx::par::run_shards(
+        ss.len(),
+        |i| {
+            let s = ss[i];
+            let e = &c.entries[s.id];
+            let vals = values(s, &c.all);
+            let mut evals = 0u64;
+            let mut ok = 0u64;
+            let mut nevals = 0u64;
+            let mut nerr = 0u64;
+            for v in &vals {
+                mcx::slot::case("derived-roundtrip", format!("T{}", s.id).as_bytes());
+                let bytes = match mcx::par::guard(|| (e.to_vec)(v)) {
+                    Ok(Ok(b)) => b,
+                    _ => {
+                        r.fail(sub, None, json!({"schema": describe(s, &c.all), "value": gv(v)}), "encoding failed");
+                        continue;
+                    }
+                };
+                let want = normalise(s, &c.all, v);
+                let item = match parse(&bytes) {
+                    Ok((it, u)) if u == bytes.len() => it,
+                    _ => {
+                        r.fail(sub, None, json!({"schema": describe(s, &c.all), "value": gv(v), "encoded_hex": hex(&bytes)}), "the derived encoder's output is not one well-formed item");
+                        continue;
+                    }
+                };
+                let k = if bytes.len() <= 12 { 2 } else { 1 };
+                for variant in deviations_up_to_ex(&item, k, true, true, false) {
+                    let enc = variant.to_bytes();
+                    let expected = schema_decode(s, &c.all, &variant);
+                    if let SVerdict::Ok(g) = &expected {
+                        if *g != want {
+                            r.machinery_error(format!("reference decoder disagrees with the encoded value for {}: {:?} vs {:?}", describe(s, &c.all), g, want));
+                            continue;
+                        }
+                    }
+                    if let SVerdict::Err(k) = &expected {
+                        r.machinery_error(format!("reference decoder rejects a re-framing of a valid encoding ({:?}) for {}: {}", k, describe(s, &c.all), variant.diag()));
+                        continue;
+                    }
+                    for suffix in [&[][..], &[0x00][..]] {
+                        let mut input = enc.clone();
+                        input.extend_from_slice(suffix);
+                        evals += 1;
+                        let actual = match mcx::par::guard(|| (e.decode)(&input)) {
+                            Ok(a) => a,
+                            Err(p) => {
+                                r.fail(sub, None, json!({"schema": describe(s, &c.all), "input_hex": hex(&input)}), format!("decoder panicked: {}", p));
+                                continue;
+                            }
+                        };
+                        match agree(&expected, &actual, enc.len()) {
+                            Ok(()) => ok += 1,
+                            Err(m) => r.fail(sub, None, json!({"schema": describe(s, &c.all), "value": gv(v), "input_hex": hex(&input), "input": variant.diag()}), m),
+                        }
+                    }
+                }
+                for bad in negatives(&item) {
+                    let enc = bad.to_bytes();
+                    let expected = schema_decode(s, &c.all, &bad);
+                    nevals += 1;
+                    if matches!(expected, SVerdict::Err(_)) {
+                        nerr += 1;
+                    }
+                    let actual = match mcx::par::guard(|| (e.decode)(&enc)) {
+                        Ok(a) => a,
+                        Err(p) => {
+                            r.fail(neg, None, json!({"schema": describe(s, &c.all), "input_hex": hex(&enc)}), format!("decoder panicked: {}", p));
+                            continue;
+                        }
+                    };
+                    if let Err(m) = agree(&expected, &actual, enc.len()) {
+                        r.fail(neg, None, json!({"schema": describe(s, &c.all), "damaged_input_hex": hex(&enc), "damaged_input": bad.diag(), "original": item.diag()}), m);
+                    }
+                }
+            }
+            r.add(sub, evals, ok);
+            r.add(neg, nevals, nerr);
+            r.outcome(sub, "decoded equal", ok);
+            r.outcome(sub, "not judged or failed", evals - ok);
+            r.outcome(neg, "must be rejected", nerr);
+            r.outcome(neg, "still decodable", nevals - nerr);
+            if i % 211 == 0 {
+                r.sample(sub, json!({"schema": describe(s, &c.all), "values": vals.len(), "decodes": evals}));
+            }
+        },
+        crate::hang_handler(r.property.clone()),
+    );
+}
+
+pub fn c10(r: &Report) {
+    let c = ctx();
+    let sub = "version-pairs";
+    r.space(
+        sub,
+        true,
+        &format!("{} (old, new) schema pairs produced by the documented-compatible edits (add/drop optional fields at gap and new-highest indices from a 10-type menu incl. tagged, nested, enum, custom-codec and indefinite-array types; add variants to enums behind optional fields, regular and index_only; unit variant -> tuple/struct variant with optional fields; two-edit combinations), both encodings, both directions x all values of the writer", c.pairs.len()),
+        2,
+    );
+    let pairs = &c.pairs;
+    mcx::par::run_shards(
+        pairs.len() * 2,
+        |k| {
+            let p = &pairs[k / 2];
+            let forward = k % 2 == 0; // forward: old writes, new reads
+            let (w, rd) = if forward { (p.old, p.new) } else { (p.new, p.old) };
+            let (ws, rs) = (&c.all[w], &c.all[rd]);
+            let vals = values(ws, &c.all);
+            let mut evals = 0u64;
+            let mut ok = 0u64;
+            let mut outcomes: BTreeMap<String, u64> = BTreeMap::new();
+            for v in &vals {
+                mcx::slot::case("compat", format!("T{}->T{}", w, rd).as_bytes());
+                let bytes = match (c.entries[w].to_vec)(v) {
+                    Ok(b) => b,
+                    Err(_) => continue,
+                };
+                let item = match parse(&bytes) {
+                    Ok((it, u)) if u == bytes.len() => it,
+                    _ => continue, // C08 reports this
+                };
+                let expected = schema_decode(rs, &c.all, &item);
+                // documented-compatible pairs always decode; the incompatible direction (reader needs a
+                // mandatory field the writer lacks) must fail
+                let reader_needs_more = !p.compatible && forward;
+                match (&expected, reader_needs_more) {
+                    (SVerdict::Err(_), false) => {
+                        r.machinery_error(format!("reference decoder rejects a documented-compatible pair: {} ({}), writer {}, reader {}, value {:?}", p.edit, if forward { "old->new" } else { "new->old" }, describe(ws, &c.all), describe(rs, &c.all), v));
+                        continue;
+                    }
+                    (SVerdict::Ok(_), true) => {
+                        r.machinery_error(format!("reference decoder accepts an incompatible pair: {}", p.edit));
+                        continue;
+                    }
+                    _ => {}
+                }
+                *outcomes.entry(match &expected { SVerdict::Ok(_) => "decodes".to_string(), SVerdict::Err(k) => format!("rejected ({:?})", k), SVerdict::May => "not judged".to_string() }).or_default() += 1;
+                evals += 1;
+                let actual = match mcx::par::guard(|| (c.entries[rd].decode)(&bytes)) {
+                    Ok(a) => a,
+                    Err(pn) => {
+                        r.fail(sub, None, json!({"edit": p.edit, "writer": describe(ws, &c.all), "reader": describe(rs, &c.all), "input_hex": hex(&bytes)}), format!("decoder panicked: {}", pn));
+                        continue;
+                    }
+                };
+                match agree(&expected, &actual, bytes.len()) {
+                    Ok(()) => ok += 1,
+                    Err(m) => r.fail(
+                        sub,
+                        None,
+                        json!({"edit": p.edit, "direction": if forward { "old writes, new reads" } else { "new writes, old reads" }, "writer": describe(ws, &c.all), "reader": describe(rs, &c.all), "writer_value": gv(v), "input_hex": hex(&bytes), "input": item.diag()}),
+                        m,
+                    ),
+                }
+            }
+            r.add(sub, evals, ok);
+            r.add_states(sub, 1, evals);
+            r.outcomes(sub, &outcomes);
+            if k % 97 == 0 {
+                r.sample(sub, json!({"edit": p.edit, "writer": describe(ws, &c.all), "reader": describe(rs, &c.all), "values": vals.len()}));
+            }
+        },
+        crate::hang_handler(r.property.clone()),
+    );
+    // the documented leniencies must also hold when the unknown field has arbitrary content
+    {
+        let sub = "unknown-field-content";
+        r.space(sub, true, "readers of the base schemas given an extra field (array position / map key unknown to them) holding each of a menu of items (scalars, nested definite/indefinite containers, tags, chunked strings)", 1);
+        let menu: Vec<Item> = vec![
+            Item::uint(7), NULL, Item::text("zz"), Item::bytes(&[1, 2]), Item::array(vec![Item::uint(1), Item::Array(vec![Item::uint(2)], Len::Indef)]),
+            Item::Map(vec![(Item::uint(0), Item::Array(vec![], Len::Indef))], Len::Indef), Item::tag(5, Item::array(vec![NULL])), Item::Text(b"ab".to_vec(), StrForm::Indef(vec![(1, W::Imm), (1, W::Imm)])), Item::f64(1.5f64.to_bits()), Item::Simple(32),
+        ];
+        let mut n = 0u64;
+        let mut ok = 0u64;
+        for p in pairs.iter().filter(|p| p.compatible) {
+            let rs = &c.all[p.old];
+            let st = match &rs.kind {
+                Kind::Struct(st) => st,
+                _ => continue,
+            };
+            for v in values(rs, &c.all) {
+                let base = schema_encode(rs, &c.all, &v);
+                for extra in &menu {
+                    // append an unknown trailing position / an unknown key 99
+                    let with_extra = match (&base, st.enc.unwrap_or(Enc::Array)) {
+                        (Item::Array(items, _), Enc::Array) => {
+                            let mut it = items.clone();
+                            // pad to beyond the highest index the reader knows
+                            while it.len() < 5 {
+                                it.push(NULL);
+                            }
+                            it.push(extra.clone());
+                            Item::array(it)
+                        }
+                        (Item::Map(es, _), Enc::Map) => {
+                            let mut es = es.clone();
+                            es.insert(0, (Item::uint(99), extra.clone()));
+                            Item::map(es)
+                        }
+                        _ => continue,
+                    };
+                    let bytes = with_extra.to_bytes();
+                    let expected = schema_decode(rs, &c.all, &with_extra);
+                    n += 1;
+                    let actual = match mcx::par::guard(|| (c.entries[rs.id].decode)(&bytes)) {
+                        Ok(a) => a,
+                        Err(pn) => {
+                            r.fail(sub, None, json!({"reader": describe(rs, &c.all), "input_hex": hex(&bytes)}), format!("decoder panicked: {}", pn));
+                            continue;
+                        }
+                    };
+                    match agree(&expected, &actual, bytes.len()) {
+                        Ok(()) => ok += 1,
+                        Err(m) => r.fail(sub, None, json!({"reader": describe(rs, &c.all), "input_hex": hex(&bytes), "input": with_extra.diag()}), m),
+                    }
+                }
+            }
+        }
+        r.add(sub, n, ok);
+        r.outcome(sub, "decoded", ok);
+    }
+}
 
 pub fn c13(_r: &Report) {}
